@@ -134,7 +134,17 @@ ErrRespOK(cfg, status, eff) ==
 (* is observed through its response.                                                         *)
 ErrsAre(cfg, obs, want) == cfg.errMode = "custom" => obs.errs = want
 
-Failed(cfg, scr, obs) ==
+(* the older request-only gate (openapi3filter.ValidationHandler with a ValidationErrorEncoder):  *)
+(* the handler runs iff the request is routed and valid, and then writes straight to the client;   *)
+(* otherwise the gate answers itself with an error status                                          *)
+FailedVH(cfg, scr, obs) ==
+   LET gate == ExpectedGate(cfg)  d == Direct(scr, FALSE) IN
+   (IF obs.eff.panicked THEN {"no_panic"} ELSE {})
+   \cup (IF obs.invoked # (IF gate = 0 THEN 1 ELSE 0) THEN {"handler_iff_valid"} ELSE {})
+   \cup (IF gate # 0 /\ obs.eff.status < 400 THEN {"gate_answers_itself"} ELSE {})
+   \cup (IF gate = 0 /\ obs.eff # d THEN {"nonstrict_passthrough"} ELSE {})
+
+FailedV(cfg, scr, obs) ==
    LET gate == ExpectedGate(cfg)
        d    == Direct(scr, cfg.strict)
        \* strict mode defers the commit to the flush, so the Content-Type that goes out (and
@@ -157,6 +167,7 @@ Failed(cfg, scr, obs) ==
 (* strict_valid_exact compares status and body only: the strict wrapper defers WriteHeader, *)
 (* so headers the handler sets after its own WriteHeader still reach the client; the       *)
 (* property speaks of status and body.                                                     *)
+Failed(cfg, scr, obs) == IF cfg.gate = "vhandler" THEN FailedVH(cfg, scr, obs) ELSE FailedV(cfg, scr, obs)
 Contract(cfg, scr, obs) == Failed(cfg, scr, obs) = {}
 
 -----------------------------------------------------------------------------
@@ -177,7 +188,8 @@ vars == <<cfg, phase, w, hdr, script, cOut, invoked, errs, logs>>
 WInit == [hw |-> FALSE, st |-> 0, buf |-> <<>>]
 
 Init ==
-   /\ cfg \in [strict : BOOLEAN, reqClass : ReqClasses, errMode : ErrModes]
+   /\ cfg \in [strict : BOOLEAN, reqClass : ReqClasses, errMode : ErrModes, gate : {"validator", "vhandler"}]
+   /\ (cfg.gate = "vhandler" => ~cfg.strict /\ cfg.errMode = "default")
    /\ phase = "start" /\ w = WInit /\ hdr = "none" /\ script = <<>> /\ cOut = <<>>
    /\ invoked = 0 /\ errs = <<>> /\ logs = <<>>
 
@@ -190,10 +202,19 @@ ErrFuncOut(status, h) ==
    ELSE [hdr |-> h, out |-> <<[e |-> "WH", s |-> status, ct |-> h],
                              [e |-> "W", data |-> "X", ct |-> h]>>]
 
+(* statuses ConvertErrors + DefaultErrorEncoder give for the request classes of the test document *)
+VHStatus(rc) == CASE rc = "nf_path" -> 404 [] rc = "nf_method" -> 405 [] rc = "inv_body" -> 422 [] rc = "inv_param" -> 400
+                  [] rc = "inv_pathlevel" -> 404 [] rc = "inv_security" -> 500 [] OTHER -> 500
+
 Gate ==   \* FindRoute / ValidateRequest fail: log, errFunc, return
    /\ phase = "start" /\ cfg.reqClass \notin ValidClasses
    /\ LET status == ExpectedGate(cfg)
           ef == ErrFuncOut(status, hdr) IN
+      IF cfg.gate = "vhandler"
+      THEN \* ErrorEncoder: some error status and body (not modelled further)
+           /\ cOut' = cOut \o <<[e |-> "WH", s |-> VHStatus(cfg.reqClass), ct |-> "errjson"], [e |-> "W", data |-> "?", ct |-> "errjson"]>>
+           /\ hdr' = "errjson" /\ UNCHANGED <<errs, logs>>
+      ELSE
       /\ errs' = Append(errs, [status |-> status, code |-> ErrCodeOf(status)])
       /\ logs' = Append(logs, IF status = 404 THEN "noroute" ELSE "badreq")
       /\ cOut' = cOut \o ef.out /\ hdr' = ef.hdr
@@ -220,9 +241,16 @@ WrapStep(strict, ws, h, c) ==
      [] c.c = "F" ->
           [w |-> ws, hdr |-> h, out |-> IF strict THEN <<>> ELSE <<[e |-> "F", ct |-> h]>>]
 
+(* no wrapper: the handler's calls are the client's calls *)
+DirectStep(ws, h, c) ==
+   CASE c.c = "SetCT" -> [w |-> ws, hdr |-> c.ct, out |-> <<>>]
+     [] c.c = "WH" -> [w |-> ws, hdr |-> h, out |-> <<[e |-> "WH", s |-> c.s, ct |-> h]>>]
+     [] c.c = "W"  -> [w |-> [ws EXCEPT !.buf = Append(@, c.tok)], hdr |-> h, out |-> <<[e |-> "W", data |-> Bytes(c.tok), ct |-> h]>>]
+     [] c.c = "F"  -> [w |-> ws, hdr |-> h, out |-> <<[e |-> "F", ct |-> h]>>]
+
 HandlerCall(c) ==
    /\ phase = "handler"
-   /\ LET r == WrapStep(cfg.strict, w, hdr, c) IN
+   /\ LET r == IF cfg.gate = "vhandler" THEN DirectStep(w, hdr, c) ELSE WrapStep(cfg.strict, w, hdr, c) IN
       /\ w' = r.w /\ hdr' = r.hdr /\ cOut' = cOut \o r.out
    /\ script' = Append(script, c)
    /\ UNCHANGED <<cfg, phase, invoked, errs, logs>>
@@ -238,7 +266,7 @@ WStatus(ws) == IF ws.st = 0 /\ ZeroStatusFix /\ cfg.strict THEN 200 ELSE ws.st
 
 RespCheckFrom(ph) ==
    /\ phase = ph /\ phase' = "done"
-   /\ LET ok == RespValid(WStatus(w), hdr, Str(w.buf)) IN
+   /\ LET ok == cfg.gate = "vhandler" \/ RespValid(WStatus(w), hdr, Str(w.buf)) IN
       IF ok THEN
          /\ cOut' = IF cfg.strict
                     THEN cOut \o <<[e |-> "WH", s |-> WStatus(w), ct |-> hdr],
@@ -277,7 +305,7 @@ TypeOK ==
    /\ phase \in {"start", "handler", "respcheck", "done"}
    /\ w.hw \in BOOLEAN /\ w.st \in Statuses \cup {0}
    /\ invoked \in 0..1
-   /\ (w.hw <=> w.st # 0)
+   /\ (cfg.gate = "validator" => (w.hw <=> w.st # 0))
 
 (* the wrapped handler runs at most once and never before the gate has passed *)
 HandlerOnlyAfterGate == invoked = 1 => cfg.reqClass \in ValidClasses
